@@ -787,6 +787,9 @@ def corpus_projects(repo, thorough):
     def add_dir(name, lang, rel):
         p = os.path.join(t, rel)
         if os.path.isdir(p):
+            size = sum(os.path.getsize(os.path.join(r, n)) for r, _, fn in os.walk(p) for n in fn if os.path.isfile(os.path.join(r, n)))
+            if size > 100000:       # lang_parser/java (260 kB, > 1 min per run): its files are in the single-file pool
+                return
             out.append({"name": name, "lang": lang, "path": p, "origin": "corpus-dir"})
 
     add_dir("corpus_dataflows_python", "python", "dataflows/python")
